@@ -9,8 +9,27 @@ CHECKS = {
    note="Trusted: Coq kernel + vm_compute; the hand-written model and Python list/dict/mixin semantics (validated by correspondence only); harness encoders. int arguments to [] are list indices; keys()/items() compared as sets.",
    design="4 C13"),
 }
+CHECKS["C01"] = dict(
+   technique="Coq proof (frame theorem over a heap model of the instance machinery: every copy-on-write call writes only cells allocated during the call; Hoare-style judgement, mutual induction on fuel) + differential correspondence model vs implementation on canonical object graphs evaluated by vm_compute",
+   text="Theorems C01_cow_call_writes_no_existing_cell / C01_deepcopy_writes_no_existing_cell / C01_core_respects_watermark are proved in Coq for every class table without do_not_copy=True classes (frozen included), every heap, receiver, helper, argument vector (valid or not), every outcome (return or exception) and every callback failure point: a call without _inplace=True writes no heap cell that existed before it. The model (coq/Inst/Model.v, ~1000 lines following mutation.py / core.py / scalar.py / toplevel.py / collections/*.py branch by branch) is tied to /repo on every run: generated class tables and operation histories are executed by model and implementation, and the canonical object graph (content and sharing) of all live roots is compared after every operation; the C01 oracle (pre-existing graph unchanged after a copy-on-write call) is evaluated in Coq on the implementation's own observations.",
+   note="Trusted: Coq kernel + vm_compute; hand-written model and Python container/deepcopy/attribute semantics (validated by correspondence only); harness graph canonicaliser; callback purity contract. Crash points covered: user-callback failures at their 1st..3rd invocation (any invocation in the theorem); line-level injection inside library code is not modelled (theorem covers callback failure points and every error the model can raise). KeyedList/KeyedSet-typed attributes, masked attributes and do_not_copy=True classes are outside the model.",
+   design="4 C01")
 NOT_YET = {}
+def load_fragments():
+    import glob
+    for f in sorted(glob.glob(os.path.join(V, "docs", "C*.manifest.py"))):
+        pid = os.path.basename(f).split(".")[0]
+        ns = {}
+        exec(open(f).read(), ns)
+        if "CHECK" in ns and os.path.exists(os.path.join(V, "harness", pid.lower() + ".py")):
+            CHECKS.setdefault(pid, ns["CHECK"])
+        for k, v in ns.get("CHECKS", {}).items():
+            if os.path.exists(os.path.join(V, "harness", k.lower() + ".py")):
+                CHECKS.setdefault(k, v)
+
+
 def main():
+    load_fragments()
     props = [json.loads(l) for l in open(os.path.join(V, "properties.jsonl"))]
     checks = []
     na = []
